@@ -225,5 +225,8 @@ def run(col, configs, tier):
     for n, facts in configs.items():
         col.set_config(n)
         guarded(col, X.rule_error_accounting, facts)
+        # back-ends that only exist under a feature: their own structural rules (compact Grisu)
+        guarded(col, X.rule_grisu_boundaries, facts)
+        guarded(col, X.rule_grisu_weed, facts)
         from rules import syntax
         guarded(col, syntax.rule_getters, facts)
